@@ -29,6 +29,8 @@ THEOREMS = [
     # normalized_as inside the model: crystals in the normal form of the requested crystal system come back exactly
     'C10.normalized_fixes_normal_form', 'C10.elastic_model_normal_form', 'C10.elastic_model_normal_form_two',
     'C10.elastic_model_second_generation',
+    # objects with state (a Box keeps its reciprocal vectors; a System holds its Box): any history = fresh object
+    'C10.box_object_conversions', 'C10.box_object_read_model', 'C10.sysobj_model_fresh', 'C10.sysobj_model_roundtrip',
     # the object invariants assumed above are established by the setters
     'C10.cleanVects_idem', 'C10.cijSet_idem',
 ]
@@ -344,6 +346,32 @@ def gen_ec(rng):
             'cs': cs}
 
 
+def gen_obj(rng):
+    """one System object holding one Box object, driven through a sequence of operations: conversions that make
+    the box keep its reciprocal vectors, setter calls, Box.model(model=...) reads into the existing object, and
+    System dumps with box-scaled positions."""
+    natoms = rng.randint(1, 4)
+    pos = [cm.dyadic(rng, -8, 8, 3) for _ in range(3 * natoms)]
+    ops = []
+    for _ in range(rng.randint(3, 8)):
+        o = rng.choice(['warm', 'warm', 'c2r', 'c2r', 'c2r', 'r2c', 'setv', 'seto', 'bread', 'bread', 'bread',
+                        'sysdump', 'sysdump', 'sysdump'])
+        if o in ('c2r', 'r2c'):
+            ops.append({'op': o, 'p': [cm.dyadic(rng, -8, 8, 3) for _ in range(3)]})
+        elif o == 'setv':
+            ops.append({'op': o, 'm': _gen_box(rng)['vects']})
+        elif o == 'seto':
+            ops.append({'op': o, 'o': [cm.dyadic(rng, -4, 4, 2) for _ in range(3)]})
+        elif o == 'bread':
+            ops.append({'op': o, 'via': rng.choice(['tree', 'json', 'xml']), 'unit': _len_unit(rng), 'box': _gen_box(rng)})
+        elif o == 'sysdump':
+            ops.append({'op': o, 'via': rng.choice(['tree', 'json', 'xml']), 'unit': _len_unit(rng)})
+        else:
+            ops.append({'op': o})
+    w1, w2 = _gen_cfgs(rng)
+    return {'kind': 'obj', 'via': 'obj', 'w1': w1, 'w2': w2, 'box': _gen_box(rng), 'natoms': natoms, 'pos': pos, 'ops': ops}
+
+
 # ----------------------------------------------------------------------------------------
 # running a case on the real code
 # ----------------------------------------------------------------------------------------
@@ -390,6 +418,8 @@ def eff_unit(name, unit):
 
 def _units_of(case):
     k = case['kind']
+    if k == 'obj':
+        return [op['unit'] for op in case['ops'] if 'unit' in op]
     if k in ('uc', 'box', 'ec'):
         return [case['unit']]
     if case.get('sel') is not None:
@@ -627,8 +657,67 @@ class RealRun:
         self.extra = {}
 
 
+def _box_out(box):
+    return {'box': {'avect': box.avect.tolist(), 'bvect': box.bvect.tolist(), 'cvect': box.cvect.tolist(),
+                    'origin': box.origin.tolist()}}
+
+
+def _run_obj(case, r) -> RealRun:
+    """an object session on the real code.  r.extra['outs'][i] is what operation i returned ({'error': ...} when
+    it raised: the session stops there), r.extra['facs'][i] the harness-evaluated unit factors (write, read)."""
+    import atomman as am
+    import numpy as np
+    n = case['natoms']
+    set_cfg(case['w1'])
+    system = am.System(atoms=am.Atoms(pos=np.array(case['pos'], dtype=float).reshape(n, 3)), box=_mk_box(case['box']))
+    outs, facs = [], []
+    r.extra['outs'], r.extra['facs'] = outs, facs
+    for op in case['ops']:
+        o, u = op['op'], op.get('unit')
+        fac = (1.0, 1.0)
+        if u is not None:
+            set_cfg(case['w1'])
+            fw = own_factor(u)
+            set_cfg(case['w2'])
+            fac = (fw, own_factor(u))
+        facs.append(fac)
+        box = system.box
+        try:
+            if o == 'warm':
+                out = {'recip': box.reciprocal_vects.tolist()}
+            elif o == 'c2r':
+                out = {'rel': box.position_cartesian_to_relative(np.array(op['p'])).tolist()}
+            elif o == 'r2c':
+                out = {'cart': box.position_relative_to_cartesian(np.array(op['p'])).tolist()}
+            elif o == 'setv':
+                box.vects = op['m']
+                out = _box_out(box)
+            elif o == 'seto':
+                box.origin = op['o']
+                out = _box_out(box)
+            elif o == 'bread':
+                set_cfg(case['w1'])
+                text = _to_text(_mk_box(op['box']).model(length_unit=u), op['via'], False)
+                set_cfg(case['w2'])
+                box.model(model=text)           # read into the existing object
+                out = _box_out(box)
+            else:
+                set_cfg(case['w1'])
+                kw = dict(box_unit=u, prop_unit={'atype': None, 'pos': 'scaled'})
+                text = system.model(**kw) if op['via'] == 'tree' else system.dump('system_model', format=op['via'], **kw)
+                set_cfg(case['w2'])
+                out = {'read': am.System(model=text) if op['via'] == 'tree' else am.load('system_model', text)}
+            outs.append(out)
+        except Exception as e:  # noqa
+            outs.append({'error': f'{type(e).__name__}: {e}'})
+            break
+    return r
+
+
 def _run_real(case, r) -> RealRun:
     """write under configuration w1, encode, read under w2.  Leaves w2 active: callers restore."""
+    if case['kind'] == 'obj':
+        return _run_obj(case, r)
     import atomman as am
     import numpy as np
     uc = _uc()
@@ -724,6 +813,15 @@ def _run_real(case, r) -> RealRun:
                 r.read = am.load('system_model', text)
         else:
             r.read = am.ElasticConstants(model=text)
+            # the same model read into an *existing* object that was used before (compliances, 3x3x3x3 form)
+            try:
+                old = am.ElasticConstants(C11=3.0, C12=1.0, C44=0.5)
+                old.Sij, old.Cijkl      # noqa: B018
+                old.model(model=text)
+                r.extra['existing'] = (old.Cij.flatten().tolist(), old.Sij.flatten().tolist())
+                r.extra['fresh_S'] = r.read.Sij.flatten().tolist()
+            except Exception as e:  # noqa
+                r.extra['existing_error'] = f'{type(e).__name__}: {e}'
             # second generation: what was read is in the normal form of `cs`, so storing it again the same way
             # (under the reading configuration) must reproduce it
             try:
@@ -775,8 +873,29 @@ def _box_tokens(b):
     return ' '.join(cm.fr(x) for row in b['vects'] for x in row) + ' ' + ' '.join(cm.fr(x) for x in b['origin'])
 
 
+def _obj_line(case, r):
+    toks = ['obj', _box_tokens(case['box']), str(case['natoms'])] + [cm.fr(x) for x in case['pos']]
+    for op, fac in zip(case['ops'], r.extra['facs']):       # the operations that were started
+        o = op['op']
+        toks.append(o)
+        if o in ('c2r', 'r2c'):
+            toks += [cm.fr(x) for x in op['p']]
+        elif o == 'setv':
+            toks += [cm.fr(x) for row in op['m'] for x in row]
+        elif o == 'seto':
+            toks += [cm.fr(x) for x in op['o']]
+        elif o in ('bread', 'sysdump'):
+            u = op['unit']
+            toks += [op['via'], _u(u, {u: fac[0]}, {u: fac[1]})]
+            if o == 'bread':
+                toks.append(_box_tokens(op['box']))
+    return ' '.join(toks)
+
+
 def request_line(case, r: RealRun) -> str:
     k, via = case['kind'], case['via']
+    if k == 'obj':
+        return _obj_line(case, r)
     if k == 'uc':
         return f"uc {via} {_u(case['unit'], r.fW, r.fR)} {_arr_tokens(case['arr'])}"
     if k == 'box':
@@ -950,8 +1069,86 @@ def _loose(case):
     return (1e-10, 1e-10 * (1 + L))
 
 
+def _norm_close(real, model, rtol, path, out):
+    """real: floats; model: '~p/q' strings.  Norm-wise: |real_i - model_i| <= rtol * max_j |model_j|."""
+    real = [float(x) for x in real]
+    mod = [Fraction(x[1:]) for x in model]
+    if len(real) != len(mod):
+        out.append(f'{path}: {len(real)} numbers, model has {len(mod)}')
+        return
+    scale = max([abs(x) for x in mod] + [Fraction(0)])
+    for i, (a, b) in enumerate(zip(real, mod)):
+        if a != a or abs(a) == float('inf') or abs(Fraction(a) - b) > Fraction(rtol) * scale:
+            out.append(f'{path}[{i}]: implementation {a!r} != model {float(b)!r}')
+            return
+
+
+OBJ_RTOL = 1e-9     # 3x3 inverse of cells with |entries| <= 8 |det| >= 8 (condition < 1e3), norm-wise
+
+
+def _flat(x):
+    return [z for y in x for z in (_flat(y) if isinstance(y, list) else [y])]
+
+
+def compare_obj(case, r, reply):
+    out = []
+    if reply.startswith('err:'):
+        return [f'model refused the request: {reply}']
+    ms = json.loads(reply, object_pairs_hook=Pairs)
+    outs = r.extra['outs']
+    if len(ms) != len(outs):
+        return [f'{len(outs)} operations run, model answered {len(ms)}']
+    for i, (op, real, m) in enumerate(zip(case['ops'], outs, ms)):
+        tag = f"op {i} ({op['op']})"
+        if 'error' in real:
+            if m is not None:
+                out.append(f"{tag}: implementation raised {real['error']}; model returns a value")
+            break
+        if m is None:
+            out.append(f'{tag}: model refuses; implementation returned a value')
+            break
+        m = dict(m)
+        tol = (TOL0 + 2 * unit_ulps(op.get('unit')) * 2.0 ** -53, 0.0)
+        if 'recip' in real:
+            _norm_close(_flat(real['recip']), _flat(m['recip']), OBJ_RTOL, f'{tag} reciprocal_vects', out)
+        elif 'rel' in real:
+            _norm_close(real['rel'], m['rel'], OBJ_RTOL, f'{tag} relative position', out)
+        elif 'cart' in real:
+            _norm_close(real['cart'], m['cart'], 1e-14, f'{tag} Cartesian position', out)
+        elif 'box' in real:
+            mb = dict(m['box'])
+            for key in ('avect', 'bvect', 'cvect', 'origin'):
+                for j in range(3):
+                    same_scalar(float(real['box'][key][j]), mb[key][j], tol, f'{tag} {key}[{j}]', out)
+        else:
+            if m['read'] is None:
+                out.append(f'{tag}: model cannot read the system back')
+                continue
+            s2, ms2 = real['read'], dict(m['read'])
+            same_box(s2.box, ms2['box'], tol, f'{tag} read box', out)
+            ma = dict(ms2['atoms'])
+            mpos = dict(dict((p[0], p[1]) for p in ma['props'])['pos'])
+            if list(s2.atoms.pos.shape) != mpos['shape']:
+                out.append(f"{tag}: pos shape {list(s2.atoms.pos.shape)} != model {mpos['shape']}")
+            else:
+                mbx = dict(ms2['box'])
+                cell = max(abs(Fraction(x[1:])) for key in ('avect', 'bvect', 'cvect', 'origin') for x in mbx[key])
+                got = s2.atoms.pos.flatten().tolist()
+                mod = [Fraction(x[1:]) for x in mpos['data']]
+                scale = max([abs(x) for x in mod] + [cell])
+                for j, (a, b) in enumerate(zip(got, mod)):
+                    if abs(Fraction(float(a)) - b) > Fraction(OBJ_RTOL) * scale:
+                        out.append(f'{tag}: position {j} read back as {a!r}, model {float(b)!r}')
+                        break
+        if out:
+            break
+    return out
+
+
 def compare(case, r: RealRun, reply):
     """list of differences between the real run and the driver's reply."""
+    if case['kind'] == 'obj':
+        return compare_obj(case, r, reply)
     out = []
     TOL = TOLW = _tol(case)
     if case['kind'] == 'ec' and 'C' in r.extra:
@@ -1007,7 +1204,8 @@ def _nontrivial(case):
     return case['via'] != 'tree' or case['w1'] != case['w2'] or any(u is not None for u in _units_of(case))
 
 
-GENS = [('uc', gen_uc, 6), ('box', gen_box, 2), ('atoms', gen_atoms, 3), ('sys', gen_sys, 6), ('ec', gen_ec, 2)]
+GENS = [('uc', gen_uc, 6), ('box', gen_box, 2), ('atoms', gen_atoms, 3), ('sys', gen_sys, 6), ('ec', gen_ec, 3),
+        ('obj', gen_obj, 3)]
 
 
 def _cases(rng, n):
@@ -1137,8 +1335,103 @@ def _xml_singleton(ctx, case, tag):
     ctx.violate(XML_SINGLETON_KEY, f'{tag}: shape (1,) written, () read back from XML text', {'case': case})
 
 
+def _inv3(V):
+    (a, b, c), (d, e, f), (g, h, i) = V
+    det = a * (e * i - f * h) - b * (d * i - f * g) + c * (d * h - e * g)
+    adj = [[e * i - f * h, c * h - b * i, b * f - c * e],
+           [f * g - d * i, a * i - c * g, c * d - a * f],
+           [d * h - e * g, b * g - a * h, a * e - b * d]]
+    return [[x / det for x in row] for row in adj]
+
+
+def _norm_ok(got, want, rtol, extra=Fraction(0)):
+    scale = max([abs(x) for x in want] + [extra])
+    for a, b in zip(got, want):
+        a = float(a)
+        if a != a or abs(a) == float('inf') or abs(Fraction(a) - b) > Fraction(rtol) * scale:
+            return False
+    return len(list(got)) == len(want)
+
+
+def oracle_obj(ctx, case, r):
+    """the object session against an exact (Fraction) account of the cell, origin and positions: after every
+    operation the object must answer as a Box / System freshly constructed from the current values would."""
+    F = Fraction
+    V = [[F(x) for x in row] for row in case['box']['vects']]
+    o = [F(x) for x in case['box']['origin']]
+    pos = [F(x) for x in case['pos']]
+    hist = []
+    for i, (op, real, fac) in enumerate(zip(case['ops'], r.extra['outs'], r.extra['facs'])):
+        name = op['op']
+        hist.append(name)
+        tag = f"object session (write {case['w1']}, read {case['w2']}), after {' > '.join(hist)}"
+        rp = {'case': case, 'failed_op': i}
+        if 'error' in real:
+            ctx.violate(f'obj:{name}:raises', f"{tag}: raised {real['error']}", rp)
+            return False
+        ratio = F(fac[1]) / F(fac[0])
+        rt = TOL0 + 2 * unit_ulps(op.get('unit')) * 2.0 ** -53
+        if name == 'warm':
+            inv = _inv3(V)
+            want = [inv[c][rw] for rw in range(3) for c in range(3)]        # inv(vects).T, row-major
+            if not _norm_ok(_flat(real['recip']), want, OBJ_RTOL):
+                ctx.violate('obj:reciprocal', f"{tag}: reciprocal_vects {real['recip']} are not those of the current "
+                            f"cell {[[float(x) for x in row] for row in V]}", rp)
+                return False
+        elif name == 'c2r':
+            inv = _inv3(V)
+            d = [F(x) - y for x, y in zip(op['p'], o)]
+            want = [sum(d[k] * inv[k][c] for k in range(3)) for c in range(3)]
+            if not _norm_ok(real['rel'], want, OBJ_RTOL):
+                ctx.violate('obj:cartesian-to-relative', f"{tag}: position_cartesian_to_relative({op['p']}) = {real['rel']}, "
+                            f"a Box freshly built from the same vects/origin gives {[float(x) for x in want]}", rp)
+                return False
+        elif name == 'r2c':
+            want = [sum(F(op['p'][k]) * V[k][c] for k in range(3)) + o[c] for c in range(3)]
+            if not _norm_ok(real['cart'], want, 1e-14, max(abs(x) for x in o)):
+                ctx.violate('obj:relative-to-cartesian', f"{tag}: position_relative_to_cartesian({op['p']}) = {real['cart']}, "
+                            f"expected {[float(x) for x in want]}", rp)
+                return False
+        else:
+            if name == 'setv':
+                V = [[F(x) for x in row] for row in op['m']]
+            elif name == 'seto':
+                o = [F(x) for x in op['o']]
+            elif name == 'bread':
+                V = [[F(x) * ratio for x in row] for row in op['box']['vects']]
+                o = [F(x) * ratio for x in op['box']['origin']]
+            if name == 'sysdump':
+                bx = real['read'].box
+                gotb = [bx.avect.tolist(), bx.bvect.tolist(), bx.cvect.tolist(), bx.origin.tolist()]
+                wantb = [[x * ratio for x in row] for row in V + [o]]
+            else:
+                b = real['box']
+                gotb = [b['avect'], b['bvect'], b['cvect'], b['origin']]
+                wantb = V + [o]
+            for g, w in zip(_flat(gotb), _flat(wantb)):
+                if not _expect_close(g, w, rt, 0):
+                    ctx.violate(f'obj:{name}:cell', f'{tag}: cell/origin {gotb}, expected '
+                                f'{[[float(x) for x in row] for row in wantb]}', rp)
+                    return False
+            if name == 'sysdump':
+                got = real['read'].atoms.pos
+                if list(got.shape) != [case['natoms'], 3]:
+                    ctx.violate('obj:sysdump:shape', f'{tag}: positions of shape {list(got.shape)} read back', rp)
+                    return False
+                want = [x * ratio for x in pos]
+                cell = max(abs(x) for x in _flat(wantb))
+                if not _norm_ok(got.flatten().tolist(), want, OBJ_RTOL, cell):
+                    ctx.violate('obj:sysdump:scaled-positions', f'{tag}: System written with box-scaled positions and read '
+                                f'back has Cartesian positions {got.flatten().tolist()}, the object had '
+                                f'{[float(x) for x in want]} (in the units read)', rp)
+                    return False
+    return True
+
+
 def oracle(ctx, case, r: RealRun):
     """property clauses for one case. Returns True when everything held."""
+    if case['kind'] == 'obj':
+        return oracle_obj(ctx, case, r)
     import numpy as np
     k, via = case['kind'], case['via']
     tag = f"{k} via {via} (write {case['w1']}, read {case['w2']})"
@@ -1188,6 +1481,15 @@ def oracle(ctx, case, r: RealRun):
             # a crystal already in the normal form of `cs`: the constants come back unchanged
             ok &= _check_array(ctx, f'ec:{via}:{cs}', f"{tag} Cij of a {form} crystal stored as {cs}", case, r.read.Cij,
                                {'dt': 'f', 'shape': [6, 6], 'data': r.extra['C']}, rc, 2 * rt, atol, False)
+        if 'existing_error' in r.extra:
+            ctx.violate(f'ec:{via}:existing-raises', f"{tag}: reading the model into an existing ElasticConstants raised "
+                        f"{r.extra['existing_error']}", {'case': case})
+            ok = False
+        elif 'existing' in r.extra and (r.extra['existing'][0] != r.read.Cij.flatten().tolist()
+                                        or r.extra['existing'][1] != r.extra['fresh_S']):
+            ctx.violate(f'ec:{via}:existing', f'{tag}: ec.model(model=...) on an existing object gives Cij/Sij different '
+                        f'from ElasticConstants(model=...)', {'case': case})
+            ok = False
         if 'read2_error' in r.extra:
             ctx.violate(f'ec:{via}:{cs}:second-raises', f"{tag}: storing the constants read back as {cs} again raised "
                         f"{r.extra['read2_error']}", {'case': case})
